@@ -103,45 +103,83 @@ func ReadBack(v interpreter.Value) *big.Int {
 func intConv(name string) func(common.MemoryGauge, interpreter.Value) interpreter.Value {
 	switch name {
 	case "Int8":
-		return func(g common.MemoryGauge, v interpreter.Value) interpreter.Value { return interpreter.ConvertInt8(g, v) }
+		return func(g common.MemoryGauge, v interpreter.Value) interpreter.Value {
+			return interpreter.ConvertInt8(g, v)
+		}
 	case "Int16":
-		return func(g common.MemoryGauge, v interpreter.Value) interpreter.Value { return interpreter.ConvertInt16(g, v) }
+		return func(g common.MemoryGauge, v interpreter.Value) interpreter.Value {
+			return interpreter.ConvertInt16(g, v)
+		}
 	case "Int32":
-		return func(g common.MemoryGauge, v interpreter.Value) interpreter.Value { return interpreter.ConvertInt32(g, v) }
+		return func(g common.MemoryGauge, v interpreter.Value) interpreter.Value {
+			return interpreter.ConvertInt32(g, v)
+		}
 	case "Int64":
-		return func(g common.MemoryGauge, v interpreter.Value) interpreter.Value { return interpreter.ConvertInt64(g, v) }
+		return func(g common.MemoryGauge, v interpreter.Value) interpreter.Value {
+			return interpreter.ConvertInt64(g, v)
+		}
 	case "Int128":
-		return func(g common.MemoryGauge, v interpreter.Value) interpreter.Value { return interpreter.ConvertInt128(g, v) }
+		return func(g common.MemoryGauge, v interpreter.Value) interpreter.Value {
+			return interpreter.ConvertInt128(g, v)
+		}
 	case "Int256":
-		return func(g common.MemoryGauge, v interpreter.Value) interpreter.Value { return interpreter.ConvertInt256(g, v) }
+		return func(g common.MemoryGauge, v interpreter.Value) interpreter.Value {
+			return interpreter.ConvertInt256(g, v)
+		}
 	case "UInt8":
-		return func(g common.MemoryGauge, v interpreter.Value) interpreter.Value { return interpreter.ConvertUInt8(g, v) }
+		return func(g common.MemoryGauge, v interpreter.Value) interpreter.Value {
+			return interpreter.ConvertUInt8(g, v)
+		}
 	case "UInt16":
-		return func(g common.MemoryGauge, v interpreter.Value) interpreter.Value { return interpreter.ConvertUInt16(g, v) }
+		return func(g common.MemoryGauge, v interpreter.Value) interpreter.Value {
+			return interpreter.ConvertUInt16(g, v)
+		}
 	case "UInt32":
-		return func(g common.MemoryGauge, v interpreter.Value) interpreter.Value { return interpreter.ConvertUInt32(g, v) }
+		return func(g common.MemoryGauge, v interpreter.Value) interpreter.Value {
+			return interpreter.ConvertUInt32(g, v)
+		}
 	case "UInt64":
-		return func(g common.MemoryGauge, v interpreter.Value) interpreter.Value { return interpreter.ConvertUInt64(g, v) }
+		return func(g common.MemoryGauge, v interpreter.Value) interpreter.Value {
+			return interpreter.ConvertUInt64(g, v)
+		}
 	case "UInt128":
-		return func(g common.MemoryGauge, v interpreter.Value) interpreter.Value { return interpreter.ConvertUInt128(g, v) }
+		return func(g common.MemoryGauge, v interpreter.Value) interpreter.Value {
+			return interpreter.ConvertUInt128(g, v)
+		}
 	case "UInt256":
-		return func(g common.MemoryGauge, v interpreter.Value) interpreter.Value { return interpreter.ConvertUInt256(g, v) }
+		return func(g common.MemoryGauge, v interpreter.Value) interpreter.Value {
+			return interpreter.ConvertUInt256(g, v)
+		}
 	case "Word8":
-		return func(g common.MemoryGauge, v interpreter.Value) interpreter.Value { return interpreter.ConvertWord8(g, v) }
+		return func(g common.MemoryGauge, v interpreter.Value) interpreter.Value {
+			return interpreter.ConvertWord8(g, v)
+		}
 	case "Word16":
-		return func(g common.MemoryGauge, v interpreter.Value) interpreter.Value { return interpreter.ConvertWord16(g, v) }
+		return func(g common.MemoryGauge, v interpreter.Value) interpreter.Value {
+			return interpreter.ConvertWord16(g, v)
+		}
 	case "Word32":
-		return func(g common.MemoryGauge, v interpreter.Value) interpreter.Value { return interpreter.ConvertWord32(g, v) }
+		return func(g common.MemoryGauge, v interpreter.Value) interpreter.Value {
+			return interpreter.ConvertWord32(g, v)
+		}
 	case "Word64":
-		return func(g common.MemoryGauge, v interpreter.Value) interpreter.Value { return interpreter.ConvertWord64(g, v) }
+		return func(g common.MemoryGauge, v interpreter.Value) interpreter.Value {
+			return interpreter.ConvertWord64(g, v)
+		}
 	case "Word128":
-		return func(g common.MemoryGauge, v interpreter.Value) interpreter.Value { return interpreter.ConvertWord128(g, v) }
+		return func(g common.MemoryGauge, v interpreter.Value) interpreter.Value {
+			return interpreter.ConvertWord128(g, v)
+		}
 	case "Word256":
-		return func(g common.MemoryGauge, v interpreter.Value) interpreter.Value { return interpreter.ConvertWord256(g, v) }
+		return func(g common.MemoryGauge, v interpreter.Value) interpreter.Value {
+			return interpreter.ConvertWord256(g, v)
+		}
 	case "Int":
 		return func(g common.MemoryGauge, v interpreter.Value) interpreter.Value { return interpreter.ConvertInt(g, v) }
 	case "UInt":
-		return func(g common.MemoryGauge, v interpreter.Value) interpreter.Value { return interpreter.ConvertUInt(g, v) }
+		return func(g common.MemoryGauge, v interpreter.Value) interpreter.Value {
+			return interpreter.ConvertUInt(g, v)
+		}
 	}
 	panic(name)
 }
